@@ -161,11 +161,11 @@ PROPS["C16"] = {
 PROPS["C12"] = {
     "level": "model_checking",
     "technique": "explicit-state BFS over triggers, value changes, SYNCs, ticks, NMT changes and parameter writes against a reference TPDO model (36 parameter configurations) + exhaustive sweep over all mapping compositions",
-    "text": "(a) 36 configurations: TPDO0 event-driven (type 254/255) x inhibit {0,2,3 ticks} x event time {0,3,4 ticks}, mapped to an asynchronous 8-bit and a 16-bit object; TPDO1 synchronous of type {1,2,3,240}; started in PRE-OP or OPERATIONAL. 21 events: COTPdoTrigPdo, COTPdoTrigObj, dictionary write of the asynchronous object with a changed / an unchanged value, write of the other mapped object, SYNC, tick, NMT start/pre-op/stop/reset communication, SDO writes to 1800h:1 (invalidate/re-validate), :2, :3, :5. Per step the sequence of TPDO frames (identifier, DLC, data) and the COPdoTransmit calls must equal the reference model: only in OPERATIONAL with a valid COB-ID, immediate transmission on a trigger unless the inhibit time runs, exactly one transmission at the end of the inhibit time for any number of triggers, event-timer transmissions exactly one event time after the last transmission, ties inhibit-first, type n on every n-th SYNC. (b) all 223 ordered compositions of 1..8 mapped objects of 1/2/3/4 bytes (<= 8 bytes) x two value patterns: frame == little-endian concatenation, DLC == mapped bytes.",
+    "text": "(a) 54 configurations (the last 18 with two event-driven TPDOs, the CiA 301 re-mapping procedure of TPDO0 to 1 or 3 objects while OPERATIONAL and a changed asynchronous object of TPDO1 as additional events): TPDO0 event-driven (type 254/255) x inhibit {0,2,3 ticks} x event time {0,3,4 ticks}, mapped to an asynchronous 8-bit and a 16-bit object; TPDO1 synchronous of type {1,2,3,240}; started in PRE-OP or OPERATIONAL. 21 events: COTPdoTrigPdo, COTPdoTrigObj, dictionary write of the asynchronous object with a changed / an unchanged value, write of the other mapped object, SYNC, tick, NMT start/pre-op/stop/reset communication, SDO writes to 1800h:1 (invalidate/re-validate), :2, :3, :5. Per step the sequence of TPDO frames (identifier, DLC, data) and the COPdoTransmit calls must equal the reference model: only in OPERATIONAL with a valid COB-ID, immediate transmission on a trigger unless the inhibit time runs, exactly one transmission at the end of the inhibit time for any number of triggers, event-timer transmissions exactly one event time after the last transmission, ties inhibit-first, type n on every n-th SYNC. (b) all 223 ordered compositions of 1..8 mapped objects of 1/2/3/4 bytes (<= 8 bytes) x two value patterns: frame == little-endian concatenation, DLC == mapped bytes.",
     "note": "a write to 18xxh:5 while the inhibit time runs ends the inhibit time and sends a waiting transmission (the behaviour the repository's unit test pins down); explicit triggers of the synchronous TPDO and inhibit on synchronous TPDOs are outside the statement and not in the alphabet; depth-bounded",
     "jobs": {
-        "quick": [J("c12", c, depth=8, deadline=100) for c in range(36)] + [J("c12map")],
-        "thorough": [J("c12", c, depth=10, deadline=1200, max_states=20000000) for c in range(36)] + [J("c12map")],
+        "quick": [J("c12", c, depth=7, deadline=100, allow_dead=True) for c in range(54)] + [J("c12map")],
+        "thorough": [J("c12", c, depth=10, deadline=1200, max_states=20000000, allow_dead=True) for c in range(54)] + [J("c12map")],
     },
 }
 
@@ -251,4 +251,35 @@ PROPS["C20"] = {
         "quick": [J("c20", c, depth=4, deadline=100) for c in range(4)],
         "thorough": [J("c20", c, depth=5, deadline=1500, max_states=5000000) for c in range(4)] + [J("c20", c, depth=3, deadline=1500, opts={"plen": 3}) for c in range(4)],
     },
+}
+
+SAFE = {"safety_only": 1}
+def S(d):
+    x = dict(SAFE); x.update(d); return x
+def c01_jobs(quick):
+    dl = 100 if quick else 900
+    jobs = [J("c01sub", c, deadline=dl) for c in range(16)]
+    # SDO cluster (scaled buffer to a fixpoint, real buffer, two servers, truncated frames)
+    jobs += [J("c04", 0, defs=SC3, depth=60, deadline=dl, opts=S({"coarse": 1, "small": 1, "fewinit": 1, "dlc": 1})),
+             J("c04", 0, defs=SC3, depth=3 if quick else 4, deadline=dl, opts=S({"small": 1, "fewinit": 1, "dlc": 1})),
+             J("c04", 0, defs=REAL1K, depth=3 if quick else 5, deadline=dl, opts=S({"small": 1, "fewinit": 1, "coarse": 1, "dlc": 1})),
+             J("c04", 0, defs=TWO3, depth=4 if quick else 6, deadline=dl, opts=S({"coarse": 1, "small": 1, "fewinit": 1, "dlc": 1})),
+             J("c04", 1, defs=["CO_SSDO_N=2", "SDO_DS2=1000"], depth=3 if quick else 4, deadline=dl, opts=S({"small": 1, "fewinit": 1, "coarse": 1}))]
+    # timer cluster with interrupt injection
+    jobs += [C08(1, depth=40, opts=SAFE), C08(7, depth=40, opts=SAFE), C08(2, depth=5 if quick else 8, deadline=dl, opts=SAFE)]
+    # heartbeat, PDO/SYNC, reconfiguration, EMCY, LSS, parameters, reset cluster
+    jobs += [J("c11", 5, depth=5 if quick else 7, deadline=dl, opts=SAFE), J("c10", 0, depth=6 if quick else 9, deadline=dl, opts=SAFE)]
+    jobs += [J("c13", c, depth=30, deadline=dl, allow_dead=True, opts=SAFE) for c in (8, 9, 72, 73, 10, 74, 42, 106)] + [J("c13map", opts=SAFE)]
+    jobs += [J("c12", c, depth=6 if quick else 8, deadline=dl, allow_dead=True, opts=SAFE) for c in (22, 40)] + [J("c12map", opts=SAFE)]
+    jobs += [J("c14", 1, depth=5 if quick else 7, deadline=dl, opts=SAFE), J("c16", 2, depth=60, deadline=dl, opts=SAFE)]
+    jobs += [J("c15", 4, defs=E8, depth=5 if quick else 7, deadline=dl, opts=SAFE), J("c15", 2, depth=40, deadline=dl, opts=SAFE)]
+    jobs += [J("c18", 0, depth=6 if quick else 9, deadline=dl, opts=SAFE), J("c18", 1, depth=60, deadline=dl, opts=S({"part": 2, "small": 1}))]
+    jobs += [J("c17", 7, deadline=dl, opts=SAFE), J("c20", 0, depth=3 if quick else 4, deadline=dl, opts=SAFE), J("c20", 3, depth=3 if quick else 4, deadline=dl, opts=SAFE)]
+    return jobs
+PROPS["C01"] = {
+    "level": "model_checking",
+    "technique": "explicit-state exploration of the sanitizer-instrumented implementation per service cluster (closed state space for the scaled SDO server, depth bounds elsewhere) plus an exhaustive sweep over all subsets of the optional dictionary groups; only the safety monitor judges",
+    "text": "Every exploration of every other property runs on an ASan+UBSan build with the safety monitor (sanitizer report, fatal-error callback, per-step CPU watchdog for unbounded loops, <= CO_SDO_BUF_SEG+2 frames per step, balanced timer lock) - C01 re-runs one representative of each cluster in safety-only mode with wider alphabets: (1) dictionary subsets: all 27648 combinations of {1003h, 1005h with/without 1006h or producing, 1014h, 1016h ok / count larger than the entries, 1017h, 1200h fixed / writable, 1280h, RPDO0 absent / communication record only / asynchronous / synchronous, RPDO1 synchronous, TPDO0 likewise, TPDO1} at three timer frequencies; for each, CONodeInit + start and every sequence of <= 2 (thorough: 3) of 56 events: NMT commands incl. DLC 0, ticks, SDO requests to every optional object incl. DLC 0 and 3, RPDO/SYNC/heartbeat/LSS/foreign frames with short DLC, TPDO triggers incl. out-of-range numbers, EMCY calls incl. an index beyond the table, SDO client request/response, failing CAN send, CAN read error, open segmented/block transfers; (2) SDO server: the closed state space of the 3-segment build and depth-bounded runs of the real 127-segment buffer and of CO_SSDO_N=2, each with truncated request frames added; (3) timer manager with the tick interrupt injected at every preemption point; (4) heartbeat consumer tables, heartbeat producer interference alphabet, all RPDO tables with a synchronous RPDO above an absent/asynchronous channel, all RPDO/TPDO mapping compositions incl. dummies, PDO reconfiguration histories, EMCY, LSS (full alphabet), parameter store/restore with NVM faults, and the mixed reset alphabet of C20.",
+    "note": "payload values outside the representatives are not enumerated (control fields and sizes are); histories longer than the bounds where no fixpoint is reached; API misuse (NULL arguments, mode values outside the enum) is outside the statement; the watchdog treats 4 s of CPU time without progress as an unbounded loop",
+    "jobs": {"quick": c01_jobs(True), "thorough": c01_jobs(False)},
 }
